@@ -29,3 +29,10 @@ def dedupY : List Y → List Y
 def setLen (l : List Y) : Option Nat := if l.all Y.isScalar then some (dedupY l).length else none
 
 end NASim.PyRt
+
+namespace NASim.PyRt
+open NASim.Load
+/-- `eval(key)` of an address key: the documented `(int, int)` spelling; anything else (another spelling, a key that is
+not a string) raises or yields something the following tuple unpacking / validity test refuses -/
+def evalAddr (k : Y) : Option (Int × Int) := match k with | .str s => parsePair s | _ => none
+end NASim.PyRt
